@@ -114,6 +114,23 @@ class RefGraph:
             n[y].add(x)
         return n
 
+    def search_bound(self):
+        """upper bound on the number of complete candidate assignments of any
+        label-respecting backtracking search on this graph: the product of
+        the factorials of the (element, degree) class sizes"""
+        import math
+        n = self.neighbours()
+        cnt = {}
+        for a, at in self.atoms.items():
+            k = (at.get("atom_type"), len(n[a]))
+            cnt[k] = cnt.get(k, 0) + 1
+        out = 1
+        for c in cnt.values():
+            out *= math.factorial(c)
+            if out > 10 ** 12:
+                break
+        return out
+
     def role(self, bond):
         return self.bonds[bond].get("reaction")
 
